@@ -30,6 +30,7 @@ type Engine struct {
 	needBand    bool
 	needStrLess bool
 	needVarint  bool
+	needProto   bool
 	needMapHas  bool
 	needApplyRB bool
 	needUnicode bool
@@ -468,6 +469,10 @@ func (e *Engine) prelude() string {
 	}
 	if needElemPtr {
 		b.WriteString("(declare-fun elemptr (Int Int) Int)\n(assert (forall ((b Int) (i Int)) (! (< 4611686018427387904 (elemptr b i)) :pattern ((elemptr b i)))))\n")
+	}
+	if e.needProto {
+		b.WriteString("(declare-fun fdIsList (Int) Bool)\n(declare-fun fdIsMap (Int) Bool)\n(declare-fun fdMsg (Int) Int)\n(declare-fun valkind (Int Int Int) Int)\n")
+		b.WriteString("(assert (forall ((f Int)) (! (and (>= (fdMsg f) 0) (not (and (fdIsList f) (fdIsMap f))) (=> (fdIsMap f) (not (= (fdMsg f) 0)))) :pattern ((fdMsg f)))))\n")
 	}
 	if e.needMapHas {
 		fmt.Fprintf(&b, "(declare-fun maphas (Int %s Int Int) Bool)\n", sAI)
